@@ -5,3 +5,4 @@ pub mod huffman_table;
 pub mod sig;
 pub mod strat;
 pub mod tls;
+pub mod trace;
